@@ -127,6 +127,8 @@ def issues_from_validation(ctx, res, label):
         props = {"C02"}
         if evname == "Solve" and field in ("errno", "cb"):
             props.add("C11")
+        if evname == "Solve" and field == "underDetermined":
+            props.add("C20")
         rp = ctx.save_replay("selfcal-%s.ndjson" % common.sig_hash(sig),
                              "".join(f["lines"]))
         issues.append(vlib.Issue(props, sig, what, replay=rp,
